@@ -9,7 +9,7 @@ def beh_text(b, rng=None, canonical=True):
     return [render_tokens(p["toks"], rng, canonical) for p in b["parses"]]
 
 
-def build_script(b, schemas, texts, extra_before=None, roundtrip=False):
+def build_script(b, schemas, texts, extra_before=None, roundtrip=False, via="buf"):
     sid = b["sid"]
     pc = b["pcfg"]
     lines = schema_lines("S", schemas[sid])
@@ -19,8 +19,14 @@ def build_script(b, schemas, texts, extra_before=None, roundtrip=False):
     lines.append("init c1 S %d" % ctx_flags(pc))
     if extra_before:
         lines += extra_before
-    for t in texts:
-        lines.append("parsebuf c1 %s" % enc(t))
+    for k, t in enumerate(texts):
+        if via == "fp":
+            lines.append("parsefp c1 %s" % enc(t))              # cfg_parse_fp on a stream
+        elif via == "file":
+            lines.append("fs file $R/main%d.conf %s" % (k, enc(t)))
+            lines.append("parsefile c1 $R/main%d.conf" % k)     # cfg_parse on a file
+        else:
+            lines.append("parsebuf c1 %s" % enc(t))
     if roundtrip:
         fl = ctx_flags(pc)
         lines += ["print c1", "init c2 S %d" % fl, "reparse c1 c2", "print c2", "init c3 S %d" % fl, "reparse c2 c3",
@@ -55,7 +61,7 @@ def cmp_cblog(exp_log, obs_cb, diffs):
                 diffs.append("callback #%d: validation of %s saw %d values, expected %d" % (i + 1, e["o"], len(ov), len(ev)))
 
 
-def check_parse_result(exp, line, diffs, aspects, pol, clean=True, base_out=0, scratch=None):
+def check_parse_result(exp, line, diffs, aspects, pol, clean=True, base_out=0, scratch=None, bufname="[buf]"):
     """compare one parse's expected outcome with the driver's observation line"""
     st = exp["status"]
     if line["out"] != base_out:
@@ -79,7 +85,7 @@ def check_parse_result(exp, line, diffs, aspects, pol, clean=True, base_out=0, s
             diffs.append(("diag", "rejected text delivered no diagnostic"))
         if exp["ndiag"] == "some" and nd > 0 and "diagpos" in aspects:
             e1, o1 = exp["diag1"], dict(line["diag"][0])
-            efile = "[buf]" if e1["file"] == "buf" else e1["file"]
+            efile = bufname if e1["file"] == "buf" else e1["file"]
             if scratch and o1["file"] and o1["file"].startswith(scratch):
                 o1["file"] = "$R" + o1["file"][len(scratch):]
             if o1["file"] != efile or o1["line"] != e1["line"]:
@@ -127,20 +133,21 @@ def replay(verdict, exe, res, aspects, pol=None, seed=0, renderings=("canonical"
     n = 0
     for b in behs:
         for r in renderings:
-            canonical = (r == "canonical")
+            canonical = r in ("canonical", "fp", "file")
             try:
                 texts = beh_text(b, rng, canonical)
             except ValueError:
                 continue
             bid = "b%d" % n
             n += 1
-            scripts.append((bid, build_script(b, res.schemas, texts, extra_before, "roundtrip" in aspects)))
-            meta[bid] = (b, texts)
+            via = r if r in ("fp", "file") else "buf"
+            scripts.append((bid, build_script(b, res.schemas, texts, extra_before, "roundtrip" in aspects, via)))
+            meta[bid] = (b, texts, via)
     results = run_behaviours(exe, scripts, tag)
     nontrivial = set()
-    for bid, (b, texts) in meta.items():
+    for bid, (b, texts, via) in meta.items():
         g = results.get(bid)
-        desc = short(b, texts)
+        desc = short(b, texts) + ("" if via == "buf" else " [via cfg_parse%s]" % ("_fp" if via == "fp" else ""))
         if g is None:
             raise ModelError("behaviour %s produced no output" % bid)
         verdict.cov["traces_validated_against_impl"] += 1
@@ -152,13 +159,14 @@ def replay(verdict, exe, res, aspects, pol=None, seed=0, renderings=("canonical"
                               "%s while executing %s :: %s" % (g["crash"]["kind"], desc, g["crash"]["detail"][:1500]),
                               dict(replay_obj, crash=g["crash"]))
             continue
-        plines = [l for l in g["lines"] if l["cmd"] == "parsebuf"]
+        plines = [l for l in g["lines"] if l["cmd"] in ("parsebuf", "parsefp", "parsefile")]
         if len(plines) != len(b["parses"]):
             raise ModelError("behaviour %s: expected %d parse observations, got %d" % (bid, len(b["parses"]), len(plines)))
         clean = True
         for p, line in zip(b["parses"], plines):
             diffs = []
-            check_parse_result(p["exp"], line, diffs, aspects, pol, clean, g["begin"]["out"], g["begin"].get("scratch"))
+            check_parse_result(p["exp"], line, diffs, aspects, pol, clean, g["begin"]["out"], g["begin"].get("scratch"),
+                               {"buf": "[buf]", "fp": "FILE", "file": "$R/main%d.conf" % plines.index(line)}[via])
             if p["exp"]["status"] != "ok":
                 clean = False
             if diffs:
